@@ -29,7 +29,7 @@ type C02Scenario struct {
 	AcceptAll   bool     `json:"accept_all,omitempty"` // every header's type-level Verify accepts anything
 }
 
-var c02Kinds = []string{"gap", "dup", "swap", "nil", vh.AdvForged, vh.AdvForked, vh.AdvWrongChain, vh.AdvTimeRegress, vh.AdvFuture, vh.AdvBadValidate, "below", "below_late", "future_near", "future_edge"}
+var c02Kinds = []string{"gap", "dup", "swap", "nil", vh.AdvForged, vh.AdvForked, vh.AdvWrongChain, vh.AdvTimeRegress, vh.AdvFuture, vh.AdvBadValidate, "below", "below_late", "future_near", "future_edge", "time_back_subsecond"}
 
 func genC02(t *rapid.T) C02Scenario {
 	s := C02Scenario{
@@ -92,6 +92,22 @@ func c02Build(s C02Scenario) (tr *vh.Header, in []*vh.Header) {
 			in[p] = nil
 		case "below":
 			in[p] = c.At(1 + uint64(p)%s.TrustedH)
+		case "time_back_subsecond":
+			// earlier than its predecessor by less than a second, inside the same second
+			if in[p] != nil && p > 0 && in[p-1] != nil {
+				b := in[p].Clone()
+				sec := in[p-1].T - in[p-1].T%1_000_000_000
+				if in[p-1].T > sec {
+					b.T = sec + (in[p-1].T-sec)/2
+				} else {
+					// the predecessor sits on a second boundary: move both into the second
+					a := in[p-1].Clone()
+					a.T = sec + 700_000_000
+					in[p-1] = a.Seal()
+					b.T = sec + 300_000_000
+				}
+				in[p] = b.Seal()
+			}
 		case "future_near":
 			// beyond the clock-drift allowance by less than the allowance itself
 			if in[p] != nil {
